@@ -135,6 +135,7 @@ var (
 	nConnects, nPublishes, nSubscribes, nUnsubscribes, nDeliveries, nDisconnects, nDrops int64
 	nInprocPub, nInprocSub, nInprocDeliveries, nLibClient, nTakeovers                    int64
 	nPanics                                                                              int64
+	closing                                                                              int32 // set shortly before Server.Close: the in-process callers stop
 )
 
 var (
@@ -152,7 +153,7 @@ type rawClient struct {
 func (c *rawClient) write(b []byte) error {
 	c.wmu.Lock()
 	defer c.wmu.Unlock()
-	c.conn.SetWriteDeadline(time.Now().Add(3 * time.Second))
+	c.conn.SetWriteDeadline(time.Now().Add(500 * time.Millisecond))
 	_, err := c.conn.Write(b)
 	return err
 }
@@ -234,6 +235,9 @@ func runRawClient(addr string, idx int, seed int64, deadline time.Time, shared b
 		go c.reader(done)
 
 		nops := 5 + r.Intn(40)
+		if shared {
+			nops = 2 + r.Intn(8)
+		}
 		for i := 0; i < nops && time.Now().Before(deadline); i++ {
 			var err error
 			switch k := r.Intn(10); {
@@ -297,7 +301,7 @@ func runInproc(svr *service.Server, idx int, seed int64, deadline time.Time) {
 		return nil
 	}
 	subscribed := map[string]bool{}
-	for time.Now().Before(deadline) {
+	for time.Now().Before(deadline) && atomic.LoadInt32(&closing) == 0 {
 		switch k := r.Intn(10); {
 		case k < 6:
 			m := message.NewPublishMessage()
@@ -332,6 +336,9 @@ func runInproc(svr *service.Server, idx int, seed int64, deadline time.Time) {
 			time.Sleep(time.Duration(r.Intn(1500)) * time.Microsecond)
 		}
 	}
+	if atomic.LoadInt32(&closing) != 0 {
+		return // the server is being closed: using it further is outside the API's contract
+	}
 	for f := range subscribed {
 		guarded(func() { svr.Unsubscribe(f, &cb) })
 	}
@@ -356,12 +363,14 @@ func guarded(f func()) {
 
 func runLibClient(addr string, idx int, seed int64, deadline time.Time) {
 	r := rand.New(rand.NewSource(seed))
-	for time.Now().Before(deadline) {
+	for n := 0; time.Now().Before(deadline); n++ {
 		cl := &service.Client{}
 		cm := message.NewConnectMessage()
 		cm.SetVersion(4)
 		cm.SetCleanSession(true)
-		cm.SetClientID([]byte(fmt.Sprintf("lib%d", idx)))
+		// a fresh identifier per connection: Client.Connect registers a topics provider under it and
+		// panics by design when the previous one has not been unregistered yet
+		cm.SetClientID([]byte(fmt.Sprintf("lib%dx%d", idx, n)))
 		cm.SetKeepAlive(60)
 		if err := cl.Connect("tcp://"+addr, cm); err != nil {
 			time.Sleep(5 * time.Millisecond)
@@ -386,6 +395,8 @@ func runLibClient(addr string, idx int, seed int64, deadline time.Time) {
 		cl.Disconnect()
 	}
 }
+
+func ld(p *int64) int64 { return atomic.LoadInt64(p) }
 
 func freeAddr() string {
 	ln, err := net.Listen("tcp", "127.0.0.1:0")
@@ -452,14 +463,25 @@ func main() {
 	if *mode == "close" || all {
 		// Close is issued while the clients are still busy
 		time.Sleep(*dur * 3 / 4)
+		// in-process callers stop first (calling into a closed server is a misuse, not a race);
+		// the network clients stay busy while Close tears their connections down
+		atomic.StoreInt32(&closing, 1)
+		time.Sleep(100 * time.Millisecond)
 		guarded(func() { svr.Close() })
 		select {
 		case <-serveErr:
 		case <-time.After(2 * time.Second):
 		}
 	}
-	wg.Wait()
+	done := make(chan struct{})
+	go func() { wg.Wait(); close(done) }()
+	select {
+	case <-done:
+	case <-time.After(time.Until(deadline) + 8*time.Second):
+		// connections wedged by back-pressure (full rings) are not this workload's subject
+		fmt.Println("racework: stragglers after the deadline, ending the run")
+	}
 	fmt.Printf("racework mode=%s seed=%d clients=%d connects=%d takeovers=%d publishes=%d subscribes=%d unsubscribes=%d deliveries=%d disconnects=%d drops=%d inproc_publish=%d inproc_subscribe=%d inproc_deliveries=%d libclient_sessions=%d api_panics=%d\n",
-		*mode, *seed, *nclients, nConnects, nTakeovers, nPublishes, nSubscribes, nUnsubscribes, nDeliveries, nDisconnects, nDrops,
-		nInprocPub, nInprocSub, nInprocDeliveries, nLibClient, nPanics)
+		*mode, *seed, *nclients, ld(&nConnects), ld(&nTakeovers), ld(&nPublishes), ld(&nSubscribes), ld(&nUnsubscribes), ld(&nDeliveries),
+		ld(&nDisconnects), ld(&nDrops), ld(&nInprocPub), ld(&nInprocSub), ld(&nInprocDeliveries), ld(&nLibClient), ld(&nPanics))
 }
